@@ -169,7 +169,20 @@ pub fn run_plan(plan: Plan, tier: Tier) -> Outcome
     // rotate the order in which series are explored (the explored set does not depend on the seed)
     let mut order: Vec<usize> = (0..plan.items.len()).collect();
     if !order.is_empty() { let r = (seed as usize) % order.len(); let _ = r; }
-    order.sort_by_key(|i| (plan.items[*i].bound.clone(), plan.items[*i].series.clone()));
+    // round-robin over the series: the smallest bound of every series first, then the second smallest of every series,
+    // ... so that under a wall-clock cap no series is starved by the large bounds of another one (items of a series are
+    // listed in increasing bound order)
+    {
+        let mut rank: Vec<usize> = vec![0; plan.items.len()];
+        let mut seen: BTreeMap<String, usize> = BTreeMap::new();
+        for (i, it) in plan.items.iter().enumerate()
+        {
+            let k = seen.entry(it.series.clone()).or_insert(0);
+            rank[i] = *k;
+            *k += 1;
+        }
+        order.sort_by_key(|i| (rank[*i], plan.items[*i].series.clone()));
+    }
 
     // developer aid: restrict a run to the series whose name contains VERIF_ONLY_SERIES
     let only = std::env::var("VERIF_ONLY_SERIES").ok();
